@@ -1,6 +1,31 @@
 import PydjinniModel.Sys.Config
 /-!
 # C17 — configuration sources are equivalent, merge key-wise, fail cleanly
+
+Merge (`api.combine_into`, any depth, any width):
+* `combine_lookup`                       what is found under one key after the merge
+* `merge_override`                       a path the override binds to a scalar is bound to that scalar afterwards
+* `merge_keeps`                          a path the override says nothing about holds exactly what the base held (siblings are kept)
+* `merge_wf`, `combine_nil_right`        the merge of dicts is a dict (unique keys); an options dict alone is the configuration
+
+`-o key=value` (any number of options):
+* `assign_wins`, `assign_keeps`          one assignment: the named path holds the value, every incomparable path is unchanged
+* `foldOptions_append`, `options_last_wins`, `options_last_keeps`   options are processed left to right, the last one wins
+* `foldOptions_refused_iff`              the option list is refused iff some option has no `=`
+
+Equivalence of the spellings:
+* `fold_leaves_eq`                       a dict (unique keys, no empty sub-dict) is rebuilt exactly from its leaf assignments
+* `parseOption_render`, `envPath_render` `a.b=v` / `[x,y]` / `pydjinni__a__b` are read back as the assignment they spell
+* `sources_equivalent`, `configure_sources_equivalent`   dict = file = `-o` options = environment variables
+* `explicit_over_env`, `env_fills_in`    precedence: file+options over environment over `.env`
+
+Failing cleanly:
+* `configure_fails_cleanly_partial`      decision table of `API.configure`: result, 141 or 2 — no other exception (domain `cfgDom`)
+* `configure_nonStringKey_counterexample`  the hole outside `cfgDom` is real
+* `configure_missing_first`, `configure_ok_is_merge`
+* `parse_unready_refused`, `parse_without_generate_refused`, `generate_unready_refused`, `generate_unconfigured_refused`
+                                         incompletely configured targets are refused with 141, unknown ones with 120
+* `generate_fails_cleanly_partial`, `generate_glue_without_cpp_counterexample`   domain `readyDom` and its hole
 -/
 namespace Pydjinni.Sys
 
@@ -950,5 +975,29 @@ theorem generate_glue_without_cpp_counterexample :
 example : ∃ cts, parseReady (some ["cpp", "java", "jni", "objc", "objcpp", "cppcli", "yaml"]) = .ok cts
     ∧ ∀ t ∈ ["cpp", "java", "objc", "cppcli", "yaml"], generateOutcome cts [.record, .enum] t = .ok () := by
   refine ⟨targetTable, by decide, by decide⟩
+
+
+/-! ### the hypotheses are satisfiable (evaluated by the compiled model) -/
+
+private def exBase : Kids := [("generate", .node [("cpp", .node [("out", .leaf (.str "o")), ("namespace", .leaf (.str "a::b"))]),
+  ("include_dirs", .leaf (.strs ["x", "y"]))])]
+private def exOver : Kids := [("generate", .node [("cpp", .node [("out", .node [("header", .leaf (.str "h")), ("source", .leaf (.str "s"))])])])]
+
+-- merge_override / merge_keeps: the override names generate.cpp.out.header; generate.cpp.namespace is a sibling
+#guard wf (.node exOver) && wf (.node exBase)
+#guard leafAt ["generate", "cpp", "out", "header"] (.node (combine exOver exBase)) == some (.str "h")
+#guard untouched ["generate", "cpp", "namespace"] exOver
+#guard leafAt ["generate", "cpp", "namespace"] (.node (combine exOver exBase)) == some (.str "a::b")
+#guard mergeSpec exOver exBase (combine exOver exBase)
+-- sources_equivalent: every hypothesis holds for exBase, and the three spellings coincide
+#guard noEmptyKids exBase && (leavesKids exBase).all optSafe && (leavesKids exBase).all envSafe
+#guard (leavesKids exBase).map renderOption == ["generate.cpp.out=o", "generate.cpp.namespace=a::b", "generate.include_dirs=[x,y]"]
+#guard (match foldOptions ((leavesKids exBase).map renderOption) [] with | .ok t => kidsBeq t exBase | .error _ => false)
+#guard kidsBeq (envTree ((leavesKids exBase).map renderEnvVar)) exBase
+#guard ((leavesKids exBase).map renderEnvVar).map (·.1) == ["pydjinni__generate__cpp__out", "pydjinni__generate__cpp__namespace", "pydjinni__generate__include_dirs"]
+-- options: later wins, a scalar gives way to nested keys, malformed text is refused
+#guard (match foldOptions ["a=1", "a.b=2", "a.c=[x,y]"] [] with
+  | .ok t => kidsBeq t [("a", .node [("b", .leaf (.str "2")), ("c", .leaf (.strs ["x", "y"]))])] | .error _ => false)
+#guard (match foldOptions ["a=1", "oops"] [] with | .error .noEquals => true | _ => false)
 
 end Pydjinni.Sys
